@@ -196,7 +196,7 @@ class Writer:
                 f"(in {segment_addresses_str})."
             )
 
-        if segment_start < 0 or segment_start + segment_length > (1 << 64):
+        if segment_start < 0 or segment_length >= (1 << 64) or segment_start + segment_length > (1 << 64):
             raise FlipJumpWriteFjmException(
                 f"the segment must lie inside the 64-bit word-address space (in {segment_addresses_str})."
             )
